@@ -25,8 +25,11 @@ func (c *Client) Authenticate(saslClient sasl.Client) error {
 	}
 
 	cmd := &authenticateCommand{}
-	contReq := c.registerContReq(cmd)
 	enc := c.beginCommand("AUTHENTICATE", cmd)
+	// Continuation requests are matched with the server's "+" in FIFO order:
+	// only register ours once we hold the encoder lock, otherwise the "+"
+	// answering another command's literal could be handed to us
+	contReq := c.registerContReq(cmd)
 	enc.SP().Atom(mech)
 	if initialResp != nil && hasSASLIR {
 		enc.SP().Atom(internal.EncodeSASL(initialResp))
